@@ -139,6 +139,9 @@ func (cache *HevcCache) getPalyloadType(payload []byte) (vps, sps, pps, islice b
 		off := 2
 		// 循环读取被封装的NAL
 		for {
+			if off+3 > len(payload) { // 长度域(2)+NAL头(1)必须在包内
+				return
+			}
 			// nal长度
 			nalSize := ((uint16(payload[off])) << 8) | uint16(payload[off+1])
 			if nalSize < 1 {
